@@ -1941,6 +1941,10 @@ func RunFrame(frame *py.Frame) (res py.Object, err error) {
 	if vm.why != whyReturn {
 		vm.retval = nil
 	}
+	// The frame has finished (returned or raised): a yield executed
+	// in a finally block after the return must not leave it marked
+	// as suspended.
+	frame.Yielded = false
 	if vm.retval == nil && !vm.curexc.IsSet() {
 		panic("vm: no result or exception")
 	}
